@@ -29,6 +29,9 @@ def classify_call(term):
         st = ga[0] if ga else "?"
         it = ga[1] if len(ga) > 1 else "?"
         return ("index", "%s[%s]" % (simplify_ty(st), simplify_ty(it)))
+    if re.match(r"^core::num::<impl (isize|i8|i16|i32|i64|i128)>::abs$", name):
+        # the absolute value of the most negative number does not exist: overflow panic where overflow checks are on
+        return ("overflow", "abs")
     last = name.split("::")[-1]
     if last in VEC_PANIC_METHODS and not info.get("local") and RX_CONTAINER.search(name):
         if last == "truncate":
